@@ -717,13 +717,18 @@ def cfg_print_simple(G):
     if not cfg_is_simple(G):
         raise RuntimeError('the CFG is not in simple format')
 
+    # the empty alternative is written as ε, unless ε is a terminal of the grammar: then _ is declared and used
+    epsilon = '_' if 'ε' in G.Sigma else 'ε'
+
     def print_alternative(a: Alternative) -> str:
         if not a.symbols:
-            return 'ε'
+            return epsilon
         return ''.join(a.symbols)
 
     rule_map = defaultdict(lambda: [])
     for rule in G.R:
         rule_map[rule.variable].append(rule.alternative)
     rules = ['{} -> {}'.format(X, ' | '.join(list(map(print_alternative, rule_map[X])))) for X in G.ordered_variables()]
+    if epsilon != 'ε':
+        rules.insert(0, 'epsilon = {}'.format(epsilon))
     return '\n'.join(rules)
